@@ -183,6 +183,8 @@ def make(ctx, newick):
 IN_PLACE = {"Prune"}
 OBSERVE_ONLY = {"Bifurcating", "Query"}
 PLAIN_ONLY_ACTS = {"Query"}
+# calls that never look at the text of a name: in the quick tier they run for the plain class only
+NAME_BLIND_ACTS = {"Copy", "DeepCopy", "CopyModule", "Unrooted", "Prune", "Bifurcating"}
 
 
 def call(ctx, act, args):
